@@ -185,6 +185,10 @@ def run(c):
         ("wrongContentType", 200, [["content-type", "application/octet-stream"]], bytes(range(256)) * 8, "cl", []),
         ("wrongContentType", 200, [["content-type", "text/xml; charset=utf-32"]], b"\x00\x00\x00<", "cl", []),
         ("wrongContentType", 200, [], b"", "cl", []),
+        # the reply announces far more than it delivers (a truncated or relayed reply, a broken middlebox): the announced
+        # length is the sender's claim, nothing may be sized by it (above isize::MAX an allocation request panics)
+        ("overstatedLength", 200, [["content-type", "application/json"], ["content-length", "9999999999999999999"]], b'{"a": 1}', "close", []),
+        ("overstatedLength", 200, [["content-type", "text/xml"], ["content-length", "18446744073709551613"]], b"<GoalState/>", "close", []),
     ]
     for cl, status, hs, body, fr, frames in replies:
         for kind in ("goalstate", "imds"):
